@@ -8,6 +8,7 @@ package smtp
 import (
 	"bufio"
 	"bytes"
+	"crypto/tls"
 	"io"
 	"net/textproto"
 )
@@ -125,3 +126,7 @@ func VerifReadResponse(wire []byte, expectCode int) (int, string, error, []byte)
 	rest, _ := io.ReadAll(c.text.R)
 	return code, msg, err, rest
 }
+
+// VerifSetStartTLSHook sets the client's testHookStartTLS (called with the TLS
+// configuration right before the STARTTLS handshake).
+func VerifSetStartTLSHook(f func(*tls.Config)) { testHookStartTLS = f }
